@@ -177,12 +177,18 @@ def run(ctx, rep):
         finds = [(b, t) for b, t in fn.calls() if (t.get('callee') or '').endswith('Dir::find_entry')]
         m = Must(facts, lambda f, b, t, names: False)
         lab = label_results(fn)
+        d15 = None
         for b, t in finds:
             info = lab.get(b)
             if not info or info['status'] != 'labelled':
                 continue
-            # does this lookup's Ok edge dominate a recursive call (i.e. is it an intermediate component)?
-            if not any(edge_dominates(fn, info['ok'], r) for r in rec):
+            # is it an intermediate component?  the directory it finds is what a recursive call is made on (or handed to one);
+            # (dominance of the recursive call by the lookup's Ok edge says the same until the step is moved into a helper
+            # with its own `?`, whose two exits meet again before the caller's `?`)
+            if d15 is None:
+                d15 = Deps(fn)
+            feeds = any(('callsite', b) in d15.of_operand(a) for r in rec for a in fn.blocks[r]['term']['args'])
+            if not feeds and not any(edge_dominates(fn, info['ok'], r) for r in rec):
                 continue
             n5 += 1
             # the is_dir argument: Some(true)
